@@ -102,20 +102,11 @@ where
             rows.sort_by(|a, b| {
                 let mut ret = Ordering::Equal;
                 for (order, rev) in q.order_by() {
+                    let (x, y) = (a.get(order).unwrap(), b.get(order).unwrap());
                     if *rev {
-                        ret = ret.then(
-                            b.get(order)
-                                .unwrap()
-                                .to_string()
-                                .cmp(&a.get(order).unwrap().to_string()),
-                        );
+                        ret = ret.then(cmp_value(y, x));
                     } else {
-                        ret = ret.then(
-                            a.get(order)
-                                .unwrap()
-                                .to_string()
-                                .cmp(&b.get(order).unwrap().to_string()),
-                        );
+                        ret = ret.then(cmp_value(x, y));
                     }
                 }
 
@@ -237,6 +228,21 @@ impl Expr {
                 false
             }
         }
+    }
+}
+
+/// orders two values of a sort key: numbers by value, strings by text
+fn cmp_value(a: &JsonValue, b: &JsonValue) -> Ordering {
+    match (a, b) {
+        (JsonValue::Number(x), JsonValue::Number(y)) => match (x.as_i64(), y.as_i64()) {
+            (Some(x), Some(y)) => x.cmp(&y),
+            _ => x
+                .as_f64()
+                .partial_cmp(&y.as_f64())
+                .unwrap_or(Ordering::Equal),
+        },
+        (JsonValue::String(x), JsonValue::String(y)) => x.cmp(y),
+        _ => a.to_string().cmp(&b.to_string()),
     }
 }
 
